@@ -37,6 +37,7 @@ type Run struct {
 	Assume    []string
 	known     []knownFinding
 	knownUsed map[int]bool
+	curKeys   map[string]bool // keys of the functions of the current program (lazily built)
 	Mutants   *MutantStats
 }
 
